@@ -362,6 +362,16 @@ CATALOGUE: dict[str, dict] = {
     "augassign-name-import-prefix": {"s": ["v += {P}"], "rename": ("v", "importance")},
     "call-helper-import-prefix": {"s": ["helper({P})"], "rename": ("helper", "import_sample")},
     "call-helper-print-prefix": {"s": ["helper({P})"], "rename": ("helper", "printout")},
+    # a helper whose name ENDS in a word the line dispatch knows (`target`, `sleep`, `print`, `import`) with an argument that looks like
+    # the directive's (digits, a word): still a call of the helper
+    "call-helper-suffix-target": {"s": ["helper({P})"], "rename": ("helper", "set_target")},
+    "call-helper-suffix-sleep": {"s": ["helper({P})"], "rename": ("helper", "deep_sleep")},
+    "call-helper-suffix-print": {"s": ["helper({P})"], "rename": ("helper", "reprint")},
+    "call-helper-suffix-import": {"s": ["helper({P})"], "rename": ("helper", "reimport")},
+    # a one-line docstring / string statement followed on its line by blanks or a comment: the lines after it are code
+    "after-docstring-trailing-comment": {"s": ['"""what this block does"""  # note', "mon.write({P})"], "line": 1},
+    "after-docstring-trailing-blanks": {"s": ['"""what this block does"""   ', "mon.write({P})"], "line": 1},
+    "after-sq-docstring-trailing-tab": {"s": ["\'\'\'what this block does\'\'\'\t# note", "mon.write({P})"], "line": 1},
     # a helper of the script that has the name of a host-side builtin is still the script's helper
     "call-helper-named-help": {"s": ["helper({P})"], "rename": ("helper", "help")},
     "call-helper-named-input": {"s": ["helper({P})"], "rename": ("helper", "input")},
